@@ -14,6 +14,9 @@ CHECKS = {
     "C03": ("exploration", "property-based testing (Hypothesis @given, round-trip + independent reference parser)",
             "Hypothesis-generated messages of all 36 classes over their protocol domains go through the real send path and back through the real receive path; framing, declared/announced/actual lengths and CRC are judged by an independent spec-derived parser. Sampled, not exhaustive.",
             TRUST),
+    "C04": ("exploration", "property-based testing + exhaustive sub-grids (independent spec-derived command reader as oracle)",
+            "On initialised clients against generated installations (AC numbers 0..3/0..15, zones 0..15, abilities, limits) every public control call is issued with every enum argument, all temperatures on the 0.05 grid from min-3 to max+3 (plus 0.01-grid samples), all damper values and quick timers; the single frame captured at the simulated console is read by an independent reader of the vendor control tables and must address the intended entity, carry exactly the requested attribute (rounding within half a step, clamping for ACs) and read keep everywhere else, with the documented addresses, sub-header and CRC.",
+            "zone set-points within 10..35 degC; undocumented timer messages read with the docstring layout; " + TRUST),
     "C05": ("exploration", "exhaustive per-field / per-byte-pair enumeration + property-based testing (differential against an independent spec reader)",
             "For each of the 14 status/ability/name/version/error decoders, Hypothesis-generated base payloads (written by an independent console writer) are mutated exhaustively per byte (256 values) and per adjacent byte pair (65 536 values; quick: pairs straddling multi-byte fields) over one record, with generated record counts, AT5 strides and string shapes; every decode is compared field by field with an independent reading of the vendor tables (value / ABSENT / UNDEFINED => equal / None / must reject).",
             "payloads the documents give no reading for carry no requirement; undocumented timer messages use the docstring layout; the three AC sentinel cases the float data model cannot express are recorded known findings with the misreading pinned; " + TRUST),
@@ -32,6 +35,9 @@ CHECKS = {
     "C10": ("exploration", "property-based testing (Hypothesis-generated frame histories, reference object model)",
             "Generated histories of AC / zone / timer / version / error frames (any entity order, repeats, partial frames, unknown ids, all defined enum values) are pushed by a simulated console at an initialised client; after every frame every public getter is compared with a reference model written from the API docstrings and vendor tables.",
             "only defined protocol values; expected error text = latest text the console sent for that AC; " + TRUST),
+    "C11": ("exploration", "exhaustive enumeration over ability bitmaps + property-based testing (oracle from the console's own ability/status report)",
+            "Every ability bitmap (thorough: all 4096 AT4 + 8192 AT5; quick: 1024 per generation) goes through a real handshake; every AcMode / AcFanSpeed / AcPowerControl / ZonePowerState, damper -5..105, temperatures on 0.05 / 0.01 grids around the limits incl. ties, sensor present/absent, turbo supported/unsupported and all reported timer states x set/clear are requested: unsupported => ValueError and zero bytes; supported => exactly one frame with the documented reading, rounding and clamping; the untouched timer equals the last report; supported_* getters equal the ability report.",
+            "zone set-points within 10..35 degC; undocumented timer messages read with the docstring layout; " + TRUST),
     "C12": ("exploration", "property-based testing (Hypothesis-generated histories with subscription changes, per-callable invocation bounds from the reference model)",
             "Generated frame histories (biased to exact repeats and single-attribute changes) interleaved with subscribe / double-subscribe / unsubscribe over pools of callables per scope, some raising; for every frame and callable the invocation count must lie between the lower bound (exposed change => >= 1) and the upper bound (identical record => 0; at most once per changed record) with the right identifier, AC-state subscribers never hear zone-only changes, unsubscribed callables are never called, and reception continues.",
             "frames differing only in unexposed bits may or may not notify; invocation order not compared; " + TRUST),
